@@ -16,7 +16,7 @@ MANIFEST = {
              "sighting or purge, byebye removes exactly the named device, invalid messages create and refresh nothing; together: the "
              "judge C03.ok holds on every trace of the model (c03_history). The model is tied to ssdp_listener.py by generated "
              "constants (default max-age, regex text, validity needles, comparison operators) pinned by decide-theorems and by a "
-             "per-event differential check through the real listener stack; the same judge runs on the implementation's device maps. New in round 2: present_within_max_age as a standalone theorem; the string layer is characterised (max-age regex reads any decimal numeral, default otherwise; udn_from_usn; needles; ip version range) and invalid_inert_raw / valid_search_raw / c03_history_raw state the results on the raw decoded headers (whole model: dispatch + string layer + tracker)."),
+             "per-event differential check through the real listener stack; the same judge runs on the implementation's device maps. New in round 2: present_within_max_age as a standalone theorem; the string layer is characterised (max-age regex reads any decimal numeral, default otherwise; udn_from_usn; needles; ip version range) and invalid_inert_raw / valid_search_raw / c03_history_raw state the results on the raw decoded headers (whole model: dispatch + string layer + tracker). Round 4: saturating max-age / valid_to inside the model (max_age_saturates, valid_to_saturates, saturated_never_expires), ipaddress-faithful IPv6 recogniser with Parse.ipVersion_v6."),
     "note": ("Trusted: Lean kernel + propext/Classical.choice/Quot.sound; the max-age regex, udn_from_usn, the location test and "
              "ip_version_from_location are hand-modelled for ASCII input and the URL grammar of the generator (sampled, not proved); "
              "header maps are the abstract maps of C16; datetime arithmetic is integer microseconds (overflow is C02's concern); "
@@ -32,7 +32,7 @@ RULE = ("histories of raw SSDP datagrams (search responses, ssdp:alive/update/by
 EXHAUSTIVE = {"quick": False, "thorough": False}
 ASSUMPTIONS = [
     "header names and values are ASCII (str.lower / regex classes on non-ASCII are outside the model)",
-    "timestamps are integers (microseconds); the generator keeps max-age <= 1800 s and times within a few hours of 2020-01-01, so the saturating sums of extract_uncache_after / extract_valid_to (timedelta.max / datetime.max, reached only for max-age >~ 10^11 s) are never taken; saturation itself is C02's concern and is not in the model",
+    "timestamps are integers (microseconds) on the harness' axis (epoch 2020-01-01), all within [datetime.min, datetime.max]; the saturating sums of extract_uncache_after / extract_valid_to are modelled (Cfg.tMax, tdMaxUs, tdLimitSec, intMaxDigits are CPython constants, not extracted from the library)",
     "_udn is what decode_ssdp_packet derives from the USN (or a literal _udn header when there is no uuid USN)",
     "URLs follow scheme://[user@]host[:port]/path with host a dotted quad, a name or a bracketed IPv6 literal",
 ]
@@ -52,7 +52,7 @@ def recipes(ctx: Ctx):
     for ops in K.exhaustive_histories(depth):
         out.append((f"e{i}", {"ops": ops}))
         i += 1
-    n_random = 24000 if ctx.thorough else 1200
+    n_random = 18000 if ctx.thorough else 1200
     for _ in range(n_random):
         n = ctx.rng.randrange(2, 60 if ctx.thorough else 30)
         mode = ctx.rng.randrange(4)
